@@ -105,6 +105,8 @@ package journal
 //@ func (*Writer).Reset
 //@   props C12
 //@   requires wf(w)
+//@   at before call (*Writer).writePending#1
+//@     assert [pending-goes-to-the-old-writer] w.w == old(w.w) && w.f == old(w.f)
 //@   at return
 //@     ghost w.emitted = 0
 //@   ensures wf(w)
